@@ -163,6 +163,7 @@ class Scenario(object):
         self.steps = []
         self.rules = {}      # unique -> list of (Rule, text)
         self.owners = {}
+        self.queues = {}
         self.clients = []
 
     def witness(self, extra=None):
@@ -205,6 +206,15 @@ class Scenario(object):
                 r = c.bus_call(b"RequestName", b"su", [w, 4])
                 if r.msg.type == 2 and r.msg.body[0] == 1:
                     self.owners[w] = c.unique
+                    self.queues[w] = [c.unique]
+                    # sometimes a second connection waits in the name's queue: sender='<name>' means the PRIMARY owner only
+                    others = [x for x in self.clients if x is not c]
+                    if others and self.rng.random() < 0.5:
+                        q = self.rng.choice(others)
+                        r2 = q.bus_call(b"RequestName", b"su", [w, 0])
+                        if r2.msg.type == 2 and r2.msg.body[0] == 2:
+                            self.queues[w].append(q.unique)
+                            self.part.count("names-with-a-queued-owner")
         for c in self.clients:
             c.barrier()
             c.take_inbox()
@@ -307,9 +317,14 @@ class Scenario(object):
                     break
         obs.bus_call(b"RemoveMatch", b"s", [b"type='signal',sender='org.freedesktop.DBus',member='NameOwnerChanged',arg0='" + u + b"'"])
         obs.take_inbox()
-        for w, o in list(self.owners.items()):
-            if o == u:
-                del self.owners[w]
+        for w, q in list(self.queues.items()):
+            if u in q:
+                q.remove(u)
+            if q:
+                self.owners[w] = q[0]        # the next in the queue is promoted
+            else:
+                self.owners.pop(w, None)
+                del self.queues[w]
         self.dead_rules = self.rules.pop(u, [])
         # rules of OTHER connections that name the departed unique name as sender / destination can never
         # match again (unique names are not reused); the bus may garbage-collect them, which is only
